@@ -1,7 +1,7 @@
 """Common driver of the operator-level properties (C01-C04, C15)."""
 import sys
 from lib import *
-import audit, opscheck
+import audit, opscheck, oprel
 import known
 
 TRUSTED = ["Coq 8.16.1 kernel (coqc); vm_compute for the correspondence runs; no native_compute",
@@ -49,7 +49,7 @@ def main(prop, cases_fn, relation, theorem_hint, rule, up_to_phase=False, assump
     au = audit.audit(prop)
     cs = load_corpus(prop) + cases_fn(run.rng, tier)
     n, dis = opscheck.run_cases(run, binary, cs, prop, up_to_phase=up_to_phase, relation=relation,
-                                theorem_hint=theorem_hint)
+                                theorem_hint=theorem_hint, self_relation=oprel.RELATIONS.get(prop))
     if extra:
         extra(run, binary, tier)
     if au["problems"] and not run.violations:
